@@ -78,7 +78,17 @@ def od_same_map(a: Any, b: Any) -> Any:
 
 
 def od_unchanged(a: Any, b: Any) -> Any:
-    return And(a.mem == b.mem, a.val == b.val, a.n == b.n, a.rank == b.rank, a.top == b.top)
+    return And(a.mem == b.mem, a.val == b.val, a.n == b.n, a.rank == b.rank, a.top == b.top, a.mark == b.mark, a.t == b.t)
+
+
+def od_touched(d: Any, k: Any) -> Any:
+    """key k is resident and was used since the ghost mark was set"""
+    return And(od_has(d, k), od_rank(d, k) > d.mark)
+
+
+def od_stable(o: Any, d: Any) -> Any:
+    """every key touched in `o` is still touched in `d` under the same index"""
+    return forall_str(lambda k: Implies(od_touched(o, k), And(od_touched(d, k), od_get(d, k) == od_get(o, k))))
 
 
 # deque views -----------------------------------------------------------------
@@ -163,3 +173,8 @@ def which_unset(m: Any, oneof: str) -> Any:
 def msg_field(m: Any, name: str) -> Any:
     """value of a (possibly oneof) scalar field as stored (meaningful only when present)"""
     return getattr(m, name)
+
+
+def msg_written(m: Any) -> Any:
+    """ghost: some field of this message object was written (so it is present in its parent)"""
+    return getattr(m, "$written")
